@@ -277,6 +277,49 @@ def simulated(chk, tagname):
                         hd['LIVETIME'], hd['ONTIME'], hd['DEADC'], 1e-6 * lt.sum(), ontime), dict(oracle='simulate', args=desc))
 
 
+def app_level(chk, tagname):
+    """the real application: the three detector units of one run share the GTI list object; the LIVETIME column and the keywords of *every* file
+    follow the statement (what finalising one unit does to the list must not show in the next)"""
+    import simdrive
+    from astropy.io import fits
+    from ixpeobssim.bin.xpobssim import PARSER
+    g = rng(tagname)
+    dead = PARSER.get_default('deadtime')
+    duration = 900.
+    desc = dict(op='xpobssim-app', config='toy_point_source.py', seed=int(g.integers(1, 10 ** 6)), saa=[(300., 420.)], occ=[(0., 35.), (600., 700.)])
+    chk.case(desc, nontrivial=True)
+    with scratch() as d:
+        try:
+            files = simdrive.app_run(simdrive.config_path('toy_point_source.py'), os.path.join(d, 'sim'), duration=duration, seed=desc['seed'], saa=desc['saa'], occ=desc['occ'],
+                                     extra=['--saa', 'True', '--occult', 'True'])
+        except BaseException as e:
+            chk.fail('impl', 'xpobssim did not complete: %s: %s' % (type(e).__name__, e), dict(oracle='app', args=desc, error=str(e)))
+            return
+        for du, path in enumerate(files, start=1):
+            with fits.open(path) as h:
+                t = numpy.array(h['EVENTS'].data['TIME'], dtype=float)
+                lt = numpy.array(h['EVENTS'].data['LIVETIME'], dtype=numpy.int64)
+                gtis = [(float(a), float(b)) for a, b in zip(h['GTI'].data['START'], h['GTI'].data['STOP'])]
+                hd = dict(h['EVENTS'].header)
+            exp, prev = [], None
+            for x in t:
+                gs = max(a for a, b in gtis if a <= x)
+                ref = gs if prev is None else max(prev + dead, gs)
+                exp.append(numpy.floor((x - ref) * 1e6))
+                prev = x
+            exp = numpy.array(exp)
+            bad = numpy.abs(exp - lt) > 1
+            if bad.any():
+                j = int(numpy.where(bad)[0][0])
+                chk.fail('impl', 'xpobssim, DU %d of one run: LIVETIME[%d] = %d µs, the statement gives %d (event %.6f s after the start of its GTI)' % (
+                    du, j, lt[j], exp[j], t[j] - max(a for a, b in gtis if a <= t[j])), dict(oracle='app', args=desc, du=du, row=j))
+                continue
+            ontime = sum(b - a for a, b in gtis)
+            if not (abs(hd['ONTIME'] - ontime) < 1e-6 and abs(hd['LIVETIME'] - 1e-6 * lt.sum()) < 1e-6 and abs(hd['DEADC'] - hd['LIVETIME'] / hd['ONTIME']) < 1e-12 and 0 < hd['DEADC'] <= 1):
+                chk.fail('impl', 'xpobssim, DU %d: LIVETIME=%s ONTIME=%s DEADC=%s (Σcol=%s, good time=%s)' % (du, hd['LIVETIME'], hd['ONTIME'], hd['DEADC'], 1e-6 * lt.sum(), ontime),
+                         dict(oracle='app', args=desc, du=du))
+
+
 def known_findings(chk):
     for e in chk.findings:
         if e.get('status') != 'known':
@@ -352,6 +395,7 @@ def main(chk):
     run_cases(chk, n, 'C05-corr')
     file_level(chk, 12 if chk.tier == 'quick' else 150, 'C05-file')
     simulated(chk, 'C05-sim')
+    app_level(chk, 'C05-app')
     incremental_gti(chk, 'C05-inc')
     known_findings(chk)
     return chk.finish(level='proof', trusted=TRUSTED, search=lambda k: run_cases(chk, n, 'C05-search', k))
